@@ -182,10 +182,12 @@ END:
 }
 
 func (s *Stream) reset() {
+	vpre := verifStreamPre(s)
 	s.offset += s.cursor
 	s.buf = s.buf[s.cursor:]
 	s.length -= s.cursor
 	s.cursor = 0
+	verifStreamReset(s, vpre)
 }
 
 func (s *Stream) readBuf() []byte {
@@ -211,6 +213,7 @@ func (s *Stream) read() bool {
 	if s.allRead {
 		return false
 	}
+	vpre := verifStreamPre(s)
 	buf := s.readBuf()
 	last := len(buf) - 1
 	buf[last] = nul
@@ -221,6 +224,7 @@ func (s *Stream) read() bool {
 	} else {
 		s.filledBuffer = false
 	}
+	verifStreamRead(s, vpre, n, err)
 	if err == io.EOF {
 		s.allRead = true
 	} else if err != nil {
